@@ -63,18 +63,13 @@ rfrag!(rfrag_vec_string, Vec<String>, 2, 48, 12);
 /// partially built vector is dropped (CBMC flags frees of uninitialised or
 /// already freed memory). Cheaper than `rfrag`: the reader fails at a symbolic
 /// position but does not fragment.
-// @h rfail_vec_vec_u8 props=C14 tier=quick kind=bounded bound="outer len<=2, inner len<=1" vars="v:Vec<Vec<u8>>, failure position (any)" fns="deser/helpers.rs:deserialize_full_vec_deep,deser/helpers.rs:deserialize_full_vec_zero"
+// @h rfail_vec_vec_u8 props=C14 tier=quick kind=bounded bound="outer len=2, inner len<=1" vars="v:Vec<Vec<u8>>, failure position (any)" fns="deser/helpers.rs:deserialize_full_vec_deep,deser/helpers.rs:deserialize_full_vec_zero"
 #[kani::proof]
 #[kani::unwind(5)]
 pub fn rfail_vec_vec_u8() {
-    let n_outer: usize = kani::any();
-    kani::assume(n_outer <= 2);
     let mut v: Vec<Vec<u8>> = Vec::with_capacity(2);
-    let mut i = 0;
-    while i < n_outer {
-        v.push(<Vec<u8>>::sym(1));
-        i += 1;
-    }
+    v.push(<Vec<u8>>::sym(1));
+    v.push(<Vec<u8>>::sym(1));
     let mut sink = ArrSink::<48>::new();
     let (r, _) = ser_at(&v, 0, &mut sink);
     assert!(r.is_ok(), "[C01/ser.ok] serialization into an infallible sink succeeds");
